@@ -15,7 +15,7 @@ LEVEL_TEXT = (
 EXPLANATION = LEVEL_TEXT
 TRUSTED = ["rustc (name resolution, types, MIR)", "cwmt-facts driver", "the effect deny-list (vlib/crate_rules.py) is complete for the std APIs that read process state",
            "dependencies (cosmwasm-std, cw-storage-plus, sha2, bech32, prost, serde) are deterministic"]
-ASSUMPTIONS = ["anyhow's `{:?}` output includes a backtrace when RUST_BACKTRACE is set (environment read outside this crate; recorded observation)",
+ASSUMPTIONS = ["anyhow's and StdError's `{:?}` output includes a backtrace when RUST_BACKTRACE is set (environment read outside this crate); C19.R6 forbids formatting them that way on returning paths; their Display output is environment-independent",
                "user-supplied components are deterministic"]
 
 NO_INTERIOR_MUT_EXCEPTIONS = {"custom_handler::CachingCustomHandler", "custom_handler::CachingCustomHandlerState"}
@@ -46,6 +46,15 @@ def check(ctx, cfg):
            sample="%d local ADTs; named exception: CachingCustomHandler (opt-in recorder)" % len(F.adts))
     # R5
     r5(ctx, cfg)
+    # R6
+    de = crate_rules.debug_formatted_errors(F)
+    for f, line, ty in de:
+        ctx.fail("C19.R6", f.key, "debug-formatted-error:" + ty, "%s formats a %s with {:?} (line %d) on a returning path: the text embeds a stack backtrace whenever "
+                 "RUST_BACKTRACE is set, so results would depend on the process environment and the call stack" % (f.key, ty, line), fn=f, line=line)
+    nd = sum(1 for f in F.fns.values() for b, t in f.calls() if t["callee"]["key"].endswith("Argument::new_debug"))
+    ctx.floor("C19.R6", "debug-format-sites", nd, 15)
+    ctx.ob("C19.R6", "-", "no-backtrace-bearing-value-is-debug-formatted", not de, "%d sites" % len(de),
+           sample="%d `{:?}` sites scanned; backtrace-bearing types: anyhow::Error, StdError and %d local ADTs containing them" % (nd, len(crate_rules.backtrace_adts(F))))
 
 
 def _param_names(o):
